@@ -12,9 +12,12 @@ package main
 import (
 	"fmt"
 	"sort"
+	"sync"
 
 	"github.com/utreexo/utreexo"
 )
+
+var schedBigOnce sync.Once
 
 type schedBlock struct {
 	D []int `json:"d"`
@@ -166,6 +169,99 @@ func (r *Runner) replaySched(l *Line) lineResult {
 				r.logEvent(ev)
 			}
 			res.extra["schedules"]++
+		}
+		// a tracker is a value: a copy taken after some block (a checkpoint kept for a
+		// reorganisation) records a block of another branch - one that deletes every live
+		// leaf, positions from a pointer forest following along - and is dropped; the
+		// original records the rest of the history and must not have been disturbed
+		var forkAt []int
+		if len(blocks) >= 2 {
+			forkAt = []int{int(lineHash(l.raw)>>4) % (len(blocks) - 1)}
+			if r.one {
+				// the re-execution of a stored case does not depend on the sample
+				forkAt = nil
+				for f := 0; f < len(blocks)-1; f++ {
+					forkAt = append(forkAt, f)
+				}
+			}
+		}
+		for _, f := range forkAt {
+			pp := utreexo.NewAccumulator()
+			live := map[int]bool{}
+			nn, ok := 0, true
+			for i := 0; i <= f && ok; i++ {
+				st := &steps[i]
+				leaves := make([]utreexo.Leaf, st.K)
+				for j := range leaves {
+					leaves[j] = utreexo.Leaf{Hash: w.sy.H(leafTerm(nn + j))}
+				}
+				pr := utreexo.Proof{Targets: w.encTargets(st.Pf.T, treeRows(uint64(nn))), Proof: w.sy.Hs(st.Pf.P)}
+				if pp.Modify(leaves, w.leafHashes(st.D), pr) != nil {
+					ok = false
+				}
+				for _, d := range st.D {
+					delete(live, d)
+				}
+				for j := 0; j < st.K; j++ {
+					live[nn+j] = true
+				}
+				nn += st.K
+			}
+			var all []int
+			for x := range live {
+				all = append(all, x)
+			}
+			sort.Ints(all)
+			if ok && len(all) > 0 {
+				if pr, err := pp.Prove(w.leafHashes(all)); err == nil {
+					cs3 := utreexo.NewCachingScheduleTracker(0)
+					for i := 0; i <= f; i++ {
+						cs3.AddBlockSummary(append([]uint64{}, summaries[i]...), uint16(blocks[i].K))
+					}
+					fork := cs3
+					_ = protect(func() {
+						fork.AddBlockSummary(append([]uint64{}, pr.Targets...), 0)
+						_ = fork.GenerateCachingSchedule(int(n) + 1)
+					})
+					for i := f + 1; i < len(blocks); i++ {
+						cs3.AddBlockSummary(append([]uint64{}, summaries[i]...), uint16(blocks[i].K))
+					}
+					for _, m := range []int{int(n) + 1, 2} {
+						out := cs3.GenerateCachingSchedule(m)
+						res.calls++
+						ev := &schedEvent{Ev: "sched", Blocks: blocks, MaxMem: m, Sched: nonNil(out)}
+						if cat, what := schedCheck(blocks, m, out); cat != "" {
+							fail(cat+".fork", fmt.Sprintf("%s (a copy of the tracker taken after block %d had recorded a block of another branch)", what, f), ev)
+							r.logEvent(ev)
+						}
+						res.extra["schedules_after_fork"]++
+					}
+				}
+			}
+		}
+		// one long history (more than 65535 additions), once per run
+		if len(blocks) == 1 {
+			schedBigOnce.Do(func() {
+				big := []schedBlock{{D: []int{}, K: 65535}, {D: []int{}, K: 11}, {K: 0}}
+				var dels []uint64
+				for x := 0; x < 20; x++ {
+					big[2].D = append(big[2].D, x)
+					dels = append(dels, uint64(x))
+				}
+				csb := utreexo.NewCachingScheduleTracker(3)
+				csb.AddBlockSummary([]uint64{}, 65535)
+				csb.AddBlockSummary([]uint64{}, 11)
+				csb.AddBlockSummary(dels, 0)
+				for _, m := range []int{65546, 1 << 20, 7, 20} {
+					out := csb.GenerateCachingSchedule(m)
+					res.calls++
+					ev := &schedEvent{Ev: "sched", Blocks: nil, MaxMem: m, Sched: nonNil(out)}
+					if cat, what := schedCheck(big, m, out); cat != "" {
+						fail(cat+".bighistory", what+" (history: 65535 additions, 11 additions, the first 20 leaves deleted)", ev)
+					}
+					res.extra["schedules_big_history"]++
+				}
+			})
 		}
 	})
 	if pan != "" {
